@@ -152,6 +152,18 @@ CHECKS = {
         note="Convergence judged after 300 sweeps to 1e-6 of the cell size on grids up to 4x4 / 2x2x2 (quick).",
         technique="TLA+ spec Smooth.tla: declarative boundary/neighbour relations, TLC generator of topologies + TLC trace acceptor",
         ref="DESIGN.md section 4 C15"),
+    "C13": dict(
+        text="Optimizer.tla models the clamp-by-clamp protocol with an adversarial minimiser (arbitrary probes, a failure at "
+             "any probe, an arbitrary quality function chosen in Init) and TLC checks exhaustively that quality never gets "
+             "worse, unclamped points never move, followers stay linked, nothing stays half-applied and backport copies the "
+             "final positions; real MeshOptimizer/SketchOptimizer runs (perturbed 2x2x2 assemblies, 3x3 sketches, Free/Plane/"
+             "Line clamps, a translation link, four scipy methods and scripted minimisers realising the model's probe/worse/"
+             "failure behaviours) are recorded step by step through runtime wrappers and accepted by TLC (OptimizerJudge.tla).",
+        note="scipy's minimisers are environment (only the protocol around them is modelled). Step outcomes are compared with "
+             "tolerances 1e-7 (quality) / 1e-6 size (positions); ties within rounding accept either outcome.",
+        technique="TLA+ spec Optimizer.tla (TLC exhaustive, adversarial environment) + OptimizerJudge.tla trace validation of "
+                  "recorded optimize_clamp steps",
+        ref="DESIGN.md section 4 C13"),
 }
 
 def main():
